@@ -9,7 +9,7 @@ import vlib
 IMPORTS = "From AV Require Import Model.WsConn Model.WsConnRun."
 NCR = {"None": "RNone", "PeerDropped": "RPeerDropped", "OpenTO": "ROpenTO", "CloseTO": "RCloseTO", "DropTO": "RDropTO",
        "PingTO": "RPingTO", "IDropped": "RIDropped", "Handshake": "RHandshake"}
-STATE = {"CONNECTING": "CONNECTING", "OPEN": "OPEN", "CLOSING": "CLOSING", "CLOSED": "CLOSED"}
+STATE = {"CONNECTING": "CONNECTING", "PROXY_CONNECTING": "CONNECTING", "OPEN": "OPEN", "CLOSING": "CLOSING", "CLOSED": "CLOSED"}
 
 
 # ------------------------------------------------------------------ Coq encoders
@@ -30,9 +30,10 @@ def optoct(h):
 
 
 def coq_cfg(c):
-    return "(mkCfg %s %s %s %d %d %d %d %d %d %s %d)" % (
+    return "(mkCfg %s %s %s %d %d %d %d %d %d %s %d %s)" % (
         "Server" if c["role"] == "server" else "Client", b(c["failByDrop"]), b(c["echo"]), c["openTO"], c["closeTO"],
-        c["dropTO"] if c["role"] == "client" else 0, c["pingInt"], c["pingTO"], c["pingSize"], b(c["restart"]), c["t0"])
+        c["dropTO"] if c["role"] == "client" else 0, c["pingInt"], c["pingTO"], c["pingSize"], b(c["restart"]), c["t0"],
+        b(c.get("proxy", False) and c["role"] == "client"))
 
 
 class Unmodelled(Exception):
@@ -44,6 +45,8 @@ def coq_event(ev, txt_hex="", tick_to=None):
     t = octs(txt_hex or "")
     if k == "hs": return "EHandshake"
     if k == "badhs": return "EBadHandshake"
+    if k == "proxyok": return "EProxyOk"
+    if k == "proxybad": return "EProxyBad"
     if k == "sendClose": return f"(ESendClose {optN(ev[1])} {optoct(ev[2])})"
     if k == "sendMessage": return "ESendMessage"
     if k == "sendPing": return "ESendPing"
@@ -102,7 +105,7 @@ def coq_obs(fw, s):
     f = s["flags"]
     if f["ncr"] not in NCR: raise Unmodelled(f"wasNotCleanReason class {f['ncr']}")
     flags = [f["closedByMe"], f["failedByMe"], f["droppedByMe"], f["wasClean"], f["wasOpenTO"], f["wasCloseTO"],
-             f["wasDropTO"], f["pingPending"]]
+             f["wasDropTO"], f["pingPending"], s["state"] == "PROXY_CONNECTING"]
     return "(mkObs %s [%s] %d %d %s %d [%s] [%s] %s %s %s %d)" % (
         b(s["applied"]), "; ".join(coq_out(o) for o in seq),
         sum(1 for o in outs if o[1] == "isopen"), sum(1 for o in outs if o[1] == "isclosed"),
@@ -137,7 +140,7 @@ def utf8_ok(bs):
 
 WIRE_OK = set([1000, 1001, 1002, 1003, 1007, 1008, 1009, 1010, 1011, 1012, 1013, 1014]) | set(range(3000, 5000))
 # RFC 6455 7.4: codes that may appear in a close frame (1004/1005/1006/1015 must not; 1016..2999 unassigned)
-RANK = {"CONNECTING": 0, "OPEN": 1, "CLOSING": 2, "CLOSED": 3}
+RANK = {"PROXY_CONNECTING": 0, "CONNECTING": 0, "OPEN": 1, "CLOSING": 2, "CLOSED": 3}
 
 
 def oracle(case, res, fw):
@@ -375,7 +378,7 @@ def correspondence(ck, label, cases_by_fw, coq_limit, prop="C05", oracle_fn=None
             for s, ev in zip(res["steps"][1:], case["events"]):
                 ck.bump("ev:" + ev[0] + ("" if s["applied"] else "(n/a)"))
             ck.bump("final:" + res["steps"][-1]["state"])
-            if any(s["state"] != "CONNECTING" for s in res["steps"]):
+            if any(s["state"] not in ("CONNECTING", "PROXY_CONNECTING") for s in res["steps"]):
                 ck.note_cases(0, [json.dumps([fw, case], sort_keys=True)])
             for key, msg in oracle_fn(case, res, fw):
                 cur = pending_oracle.get(key)
@@ -444,7 +447,10 @@ def run(ck):
                    "code/bad UTF-8, peer data/ping/pong matching or not/violation/invalid payload, 4 kinds of tick, TCP drop clean/"
                    "unclean, own drop}; (4) from CONNECTING (no handshake forced) all sequences of length <= 4 (5) over {handshake "
                    "ok/bad, sendClose, sendMessage, tick, drops} x openHandshakeTimeout {0,1,2} s; (5) random walks of length <= 12 "
-                   "(16) over the full alphabet with auto-ping and start phases 0/125/375/1000/1875 ms mixed in; (6) ORACLE ONLY (not in the "
+                   "(16) over the full alphabet with auto-ping and start phases 0/125/375/1000/1875 ms mixed in; (7) boundary close codes {0,999,1000,1003..1007,1011..1016,2999,3000,4999,5000,5001,65535} from the "
+                   "peer and through sendClose, alone and in pairs, x role x failByDrop x echo; (8) client behind an explicit proxy: all "
+                   "sequences of length <= 3 (4) from PROXY_CONNECTING over {proxy 2xx / 403, handshake ok/bad, sendClose, ticks, drops}; "
+                   "(6) ORACLE ONLY (not in the "
                    "model): all sequences of length <= 4 (5) with 1..3 queued sends over {sendMessage(sync=True), sendFrame(chopsize=1), "
                    "sendMessage, sendClose x2, peer close, peer violation, tick 10 us, tick 20 us, tick 1 s, TCP drop, own drop}; every sequence on the "
                    "Twisted Clock or the asyncio virtual loop (the model sample on both). non-trivial = left CONNECTING; distinct = "
@@ -503,6 +509,18 @@ def run(ck):
                 e = ["tickrel", 125 * rng.randint(0, 24)]
             evs.append(list(e))
         randoms.append(dict(cfg=cfg, events=evs))
+    # (7) boundary close codes from the peer (and the same codes through the API), every one alone and in pairs with the
+    #     events that matter for the reply: x role x failByDrop x echoCloseCodeReason
+    CODES = [0, 999, 1000, 1003, 1004, 1005, 1006, 1007, 1011, 1012, 1013, 1014, 1015, 1016, 2999, 3000, 4999, 5000, 5001, 65535]
+    CODEEV = ([["peerClose", cd, None] for cd in CODES] + [["peerClose", 5000, "78"], ["peerClose", 2999, "78"], ["sendClose", 1000, None],
+              ["sendClose", 2999, None], ["sendClose", 3000, None], ["sendClose", 4999, None], ["sendClose", 5000, None],
+              ["tickrel", "next"], ["ownDrop"], ["peerDrop", True]])
+    codes = [dict(cfg=cfg, events=evs) for cfg in roles_flags for evs in seqs(CODEEV, 2, [["hs"]])]
+    # (8) client behind an explicit proxy: all sequences of length <= 4 (5) from PROXY_CONNECTING
+    PROXY = [["proxyok"], ["proxybad"], ["hs"], ["badhs"], ["sendClose", 1000, None], ["tickrel", "next"], ["tickrel", 875], ["peerDrop", True], ["ownDrop"]]
+    proxy = [dict(cfg=base_cfg(role="client", proxy=True, openTO=o, t0=t0), events=evs) for o in (0, 1000, 2000) for t0 in (0, 375)
+             for evs in seqs(PROXY, 3 if quick else 4, [])]
+    ck.bump("family:boundary-codes", len(codes)); ck.bump("family:proxy", len(proxy))
     # (6) the send queue (sync / chopped writes trickled out by _trigger/_send every _QUEUED_WRITE_DELAY = 10 us): NOT in
     #     the Gallina model; implementation against the property oracle only.  All sequences of length <= 4 (thorough 5)
     #     over the alphabet below that contain 1..3 queued sends, role x failByDrop
@@ -520,12 +538,12 @@ def run(ck):
     ck.exhaustive = False
     # model comparison (Coq) on a budgeted, deterministic sample of every family; everything on the independent oracle
     budget = 1200 if quick else 6000            # per framework
-    fam = [deep, gridded, full, conn, randoms]
+    fam = [deep, gridded, full, conn, randoms, codes, proxy]
     sample = list(corpus)
     for f in fam:
         sample += rng.sample(f, min(len(f), budget // len(fam)))
     correspondence(ck, "model", {"tx": sample, "aio": sample}, coq_limit=len(sample))
-    rest = syncfam + deep + gridded + full + conn + randoms
+    rest = syncfam + codes + proxy + deep + gridded + full + conn + randoms
     correspondence(ck, "oracle", {"tx": rest[0::2], "aio": rest[1::2]}, coq_limit=0)
     for c in (corpus + randoms)[:4]:
         ck.sample(c)
